@@ -13,7 +13,8 @@ LEVEL = "exploration"
 RULE = ("every spelling of each dangerous scheme word with <=2 (thorough 3) characters re-spelled (upper case, "
         "decimal/hex/named reference, backslash, percent escape) and <=1 ignorable character inserted (TAB, LF, their "
         "references, soft hyphen, NUL) x prefixes x 10 producer syntaxes x presets (html on/off, stub linkifier); "
-        "plus all strings of <=3 URL atoms through every producer and through normalizeLink/validateLink directly. "
+        "plus every combination of URL parts (7 schemes x 2 slashes x 6 userinfos x 9 hosts incl. IPv6 literals x 6 paths x "
+        "3 queries x 3 fragments, metacharacters in every part) and all strings of <=3 URL atoms through every producer and through normalizeLink/validateLink directly. "
         "Oracle: every href/src on tokens and in HTML is URL-safe ASCII and, read as a browser does, has no "
         "javascript:/vbscript:/file:/data: scheme (except data:image/gif|png|jpeg|webp;); when nothing is emitted "
         "the HTML equals the HTML with all link producers switched off (literal text, nothing dropped). "
@@ -37,6 +38,27 @@ PRODUCERS = ["[x]({U})", "[x](<{U}>)", "[x][r]\n\n[r]: {U}\n", "[x][r]\n\n[r]: <
 URL_ATOMS = ["a", "A", "/", ":", "//", "http", "javascript", "JaVa", "data:image/png;", "%", "%2", "%41", "%zz", "é",
              " ", "[", "]", "(", ")", "\\", "&amp;", "&#58;", "&#x3a;", "&Tab;", "&colon;", "\xa0", "\x01", "#", "?",
              "@", "xn--", "。", "​", "{", "|", "^", "`", "'", '"', "<", ">", "*", "_", "\U0001F600", "www.", ".com"]
+
+
+# structured URLs: every combination of parts, each part from a small set that includes metacharacters
+U_SCHEME = ["", "http:", "https:", "mailto:", "ftp:", "x-y.z+1:", "HTTP:"]
+U_SLASH = ["", "//"]
+U_USER = ["", "u@", "u:p@", "u\"<x>@", "ü ñ@", "a`b\\c@"]
+U_HOST = ["a.b", "[::1]", "[2001:db8::1]", "xn--a", "é.com", "a b", "", "A.B:80", "a.b:x"]
+U_PATH = ["", "/", "/a b", "/<>\"`{}|\\^", "/%zz%41", "/é/ü"]
+U_QUERY = ["", "?q=<&>\"", "?a=b&c=[d]"]
+U_FRAG = ["", "#f", "#\"<`"]
+
+
+def url_parts():
+    for sc in U_SCHEME:
+        for sl in U_SLASH:
+            for us in U_USER:
+                for ho in U_HOST:
+                    for pa in U_PATH:
+                        for qu in U_QUERY:
+                            for fr in U_FRAG:
+                                yield sc + sl + us + ho + pa + qu + fr
 
 
 def respell_options(ch):
@@ -89,7 +111,9 @@ def bounds(tier):
             "respelled": "<=3 for words of <=5 chars, else <=2" if th else "<=2 for words of <=11 chars, else <=1",
             "inserted": "<=1, combined with <=1 re-spelling" if th else "<=1, combined with 0 re-spellings",
             "insert_alphabet": INSERT, "prefixes": PREFIX if th else [PREFIX[i] for i in QUICK_PREFIX],
-            "producers": PRODUCERS, "configs": CFGS if th else CFGS[:2], "url_atoms": URL_ATOMS, "L_url": 3}
+            "producers": PRODUCERS, "configs": CFGS if th else CFGS[:2], "url_atoms": URL_ATOMS, "L_url": 3,
+            "url_parts": {"scheme": U_SCHEME, "slashes": U_SLASH, "userinfo": U_USER, "host": U_HOST, "path": U_PATH,
+                          "query": U_QUERY, "fragment": U_FRAG}}
 
 
 QUICK_PREFIX = [0, 1, 2, 3, 6]
@@ -107,6 +131,9 @@ def shards(tier):
                 sh.append(("scheme", w, 2 if len(w) <= 11 else 1, pi, 0, 2))
     for f in URL_ATOMS:
         sh.append(("atoms", f, 3, 4 if th else 2))
+    for si in range(len(U_SCHEME)):
+        for ui in range(len(U_USER)):
+            sh.append(("parts", si, ui, 4 if th else 2))
     return sh
 
 
@@ -215,6 +242,15 @@ def _iter(sh):
         for sp in spellings(w, nre, 1, insmax):
             u = p + sp + "alert(1)"
             yield u
+    elif sh[0] == "parts":
+        _, si, ui, _ncfg = sh
+        sc, us = U_SCHEME[si], U_USER[ui]
+        for sl in U_SLASH:
+            for ho in U_HOST:
+                for pa in U_PATH:
+                    for qu in U_QUERY:
+                        for fr in U_FRAG:
+                            yield sc + sl + us + ho + pa + qu + fr
     else:
         _, f, L, _ncfg = sh
         yield from S.strings_with_first(f, URL_ATOMS, L)
